@@ -130,6 +130,23 @@ func checkC16(c c16Case) (o vstat.Outcome) {
 				return vstat.Viol("unlocked-missing-grant", "grant %d can be decrypted with an offered key (it holds %d shares) but is not reported unlocked", gi, dealt[gi])
 			}
 		}
+		// a second attempt on the same envelope object, now with every recipient key, behaves as a first one would
+		all := c.Cfg.allRecipients()
+		var allPrivs []crypto.PrivKey
+		for k := range all {
+			allPrivs = append(allPrivs, gen.Key(k))
+		}
+		availAll := c.Cfg.available(all)
+		p2, r2, e2 := envelope.UnlockEnvelope(c.Cfg.Ctx, env, allPrivs)
+		if e2 != nil || r2 == nil {
+			return vstat.Viol("second-unlock-error", "a second UnlockEnvelope on the same envelope returned err=%v", e2)
+		}
+		if int(r2.GetSharesAvailable()) != availAll {
+			return vstat.Viol("second-unlock-differs", "second UnlockEnvelope on the same envelope (all recipient keys): SharesAvailable=%d, model %d", r2.GetSharesAvailable(), availAll)
+		}
+		if availAll >= need && !bytes.Equal(p2, c.Cfg.Payload) {
+			return vstat.Viol("second-unlock-differs", "second UnlockEnvelope on the same envelope with all recipient keys (%d shares >= %d) did not return the payload", availAll, need)
+		}
 		return nil
 	})
 	return
@@ -204,6 +221,10 @@ func checkC17(c c17Case) (o vstat.Outcome) {
 		privs = append(privs, gen.Key(i))
 	}
 	o.V = vstat.Guard("UnlockEnvelope", func() *vstat.Violation {
+		// the recipients first try one after the other (each alone), then together - on the same envelope object
+		for i := range privs {
+			_, _, _ = envelope.UnlockEnvelope(c.Cfg.Ctx, env, privs[i:i+1])
+		}
 		payload, res, uerr := envelope.UnlockEnvelope(c.Cfg.Ctx, env, privs)
 		if uerr != nil || !bytes.Equal(payload, c.Cfg.Payload) {
 			return vstat.Viol("accepted-config-does-not-open", "all recipient keys offered but unlock failed: err=%v result=%v", uerr, res)
